@@ -508,6 +508,9 @@ func normAtom(t *Term, nilness func(*Term) int) Atom {
 			if x.isConst() && x.Name == "nil" {
 				return mkc(y.isConst() && y.Name == "nil")
 			}
+			if x.Op == "global" && x.Key() == y.Key() {
+				return mkc(true) // the sentinel itself
+			}
 			if dx, ok := dynType(x); ok {
 				if dy, ok2 := dynType(y); ok2 && typeHasNoUnwrapIs != nil && typeHasNoUnwrapIs(dx) {
 					if dx != dy {
